@@ -1427,7 +1427,13 @@ func (p *UdpEndpointPool) Reset() {
 		p.dialerIndex.Delete(key)
 		return true
 	})
-	p.dialerEpoch.Range(func(key, _ any) bool {
+	p.dialerEpoch.Range(func(key, value any) bool {
+		// An endpoint still being created holds this counter: bump it before
+		// dropping it, so that endpoint is recognised as stale instead of
+		// escaping every later invalidation.
+		if counter, ok := value.(*atomic.Uint64); ok {
+			counter.Add(1)
+		}
 		p.dialerEpoch.Delete(key)
 		return true
 	})
